@@ -16,7 +16,7 @@ MANIFEST = dict(
          "exports every case; each is executed on a real acceptor / initiator Session (Session::process of the Logon over "
          "a socketpair) and judged by the monitor: logon completes only with the right TargetCompID and a listed sender, "
          "the response echoes HeartBtInt, ResetSeqNumFlag resets both numbers to 1, an initiator refuses a non-mirroring "
-         "response; SessionID == / != are compared on all CompID pairs.",
+         "response; SessionID == / != are compared on all CompID pairs; CompIDs containing the separators of the printed id (\"A->B\" / \"C\" against \"A\" / \"B->C\") are among the identities.",
     note="'Completes logon' = session state continuous and not shut down after the call. Refusing a good Logon is not judged "
          "here (the statement is an only-if); C20/C21 cover establishment.",
     tech="TLA+ logon design spec + TLC enumeration; every case replayed on real acceptor/initiator sessions; TLC trace validation",
@@ -63,9 +63,23 @@ def run(ctx):
         if k["sci"] == "match" and k["tci"] == "match" and k["clients"] != ["ELSE"]:
             cs, cr = rng.choice([(7, 0), (0, 9), (7, 9)])
             execs.append(exec_from_case(k, cfg_recv=cr, cfg_send=cs))
-    # SessionID comparisons on all pairs over a small CompID alphabet
+    # CompIDs that contain the separators of the printed session id ("FIX.4.2:Sender->Target"): identities that differ
+    # although their printed forms coincide, as the initiator's own identity against a non-mirroring response
+    for own_s, own_t in [("A->B", "C"), ("A", "B->C"), ("X:A", "B"), ("A->B->C", "D")]:
+        whole = own_s + "->" + own_t
+        cuts = [i for i in range(len(whole)) if whole.startswith("->", i)]
+        for c in cuts:
+            rt, rs = whole[:c], whole[c + 2:]          # response target / sender that re-split the same printed form
+            for enforce in (True, False):
+                ex = sc.Exec("C23", role="ini", persist="mem", sender=own_s, target=own_t, flags={"enforce": enforce}, clients=[])
+                ex.start()
+                ex.logon_exchange(hb=30, sender=rs, target=rt)
+                execs.append(ex)
+    # SessionID comparisons on all pairs over a small CompID alphabet (incl. CompIDs containing the separator)
     ex = sc.Exec("C23")
     for s1, t1, s2, t2 in itertools.product(["A", "B", "AB"], repeat=4):
+        ex.sidcmp(s1, t1, s2, t2)
+    for s1, t1, s2, t2 in itertools.product(["A", "A->B", "B->C", "C"], repeat=4):
         ex.sidcmp(s1, t1, s2, t2)
     execs.append(ex)
     traces, aborts = sc.run_execs(ctx, execs, "c23")
@@ -74,7 +88,7 @@ def run(ctx):
     ctx.tick("validate")
     ctx.exhaustive = True
     ctx.rule = ("every case of the TLC-enumerated logon design (%d) on a memory persister, a seeded subset on a file persister with a "
-                "configured receive number, and 81 SessionID comparisons; distinct = distinct configurations" % len(cases))
+                "configured receive number, CompIDs containing the separators of the printed session id, and 337 SessionID comparisons; distinct = distinct configurations" % len(cases))
     ctx.sample({"case": cases[7], "commands": execs[7].cmds})
     ctx.trusted = ["TLC", "probe_session", "lib/fixmsg.py", "ASan/UBSan (every 8th execution)"]
 
